@@ -56,9 +56,107 @@ AXIS_TYPES = {"revolute": ("A_JRc", "J_omega_JRc"), "continuous": ("A_JRc", "J_o
               "planar": ("J_r_JRc", "J_v_JRc")}
 
 
+def axis_helpers(mod):
+    """module-level functions f(p) that hand out p.axis (possibly with URDF's default for a missing <axis> element)"""
+    out = {}
+    for q, f in mod.defs().items():
+        if isinstance(f, ast.FunctionDef) and "." not in q and len(f.args.args) == 1:
+            p = f.args.args[0].arg
+            reads = [w for w in ast.walk(f) if isinstance(w, ast.Attribute) and w.attr == "axis" and isinstance(w.value, ast.Name) and w.value.id == p]
+            rets = [r for r in ast.walk(f) if isinstance(r, ast.Return) and r.value is not None]
+            if reads and rets:
+                out[q] = f
+    return out
+
+
+def inline_axis_helpers(fn, helpers):
+    """copy of fn in which `helper(x)` reads `x.axis` (what the helper returns for a robot that states its axis)"""
+    import copy
+    fn = copy.deepcopy(fn)
+
+    class T(ast.NodeTransformer):
+        def visit_Call(self, node):
+            self.generic_visit(node)
+            if isinstance(node.func, ast.Name) and node.func.id in helpers and len(node.args) == 1 and isinstance(node.args[0], ast.Name):
+                return ast.copy_location(ast.Attribute(value=node.args[0], attr="axis", ctx=ast.Load()), node)
+            return node
+    fn = T().visit(fn)
+    ast.fix_missing_locations(fn)
+    for par in ast.walk(fn):
+        for child in ast.iter_child_nodes(par):
+            child._parent = par
+    return fn
+
+
+def transport_rule(ctx):
+    """An ABSOLUTE velocity (v_R, v_C: of a point relative to the inertial frame I) is composed as v_parent + omega x r + relative velocity,
+    where omega is the ABSOLUTE angular velocity of the frame the lever arm r is fixed in / expressed in.  Under the code base's naming
+    convention X_omega_YZ is the angular velocity of Z relative to Y: inside the expression assigned to an absolute velocity every
+    cross3(X_omega_YZ, r) must have Y = I.  A relative angular velocity there (J_omega_JRc) drops omega_parent x r, so a child behind a
+    prismatic / planar / floating joint with a non-zero joint coordinate does not co-rotate with its parent (g_dot(q0, u0) != 0)."""
+    import re
+    rep = ctx.rep
+    mod = ctx.repo.module(URDF)
+    pat = re.compile(r"^(\w+?)_omega_([A-Z])(\w+)$")
+    n = 0
+    for q, f in mod.defs().items():
+        if not isinstance(f, ast.FunctionDef) or "." in q:
+            continue
+        C = f"{URDF}:{q}"
+        local = {}
+        for x in ast.walk(f):
+            if isinstance(x, ast.Assign) and len(x.targets) == 1 and isinstance(x.targets[0], ast.Name):
+                local.setdefault(x.targets[0].id, []).append(x.value)
+        for st in ast.walk(f):
+            if not (isinstance(st, ast.Assign) and len(st.targets) == 1):
+                continue
+            tname = (dotted(st.targets[0]) or "").split(".")[-1]
+            if not re.match(r"^v_[A-Z]$", tname):
+                continue
+            for w in ast.walk(st.value):
+                if isinstance(w, ast.Call) and (dotted(w.func) or "").split(".")[-1] == "cross3" and len(w.args) == 2:
+                    om = w.args[0]
+                    name = (dotted(om) or "").split(".")[-1]
+                    mm = pat.match(name)
+                    if not mm:
+                        continue
+                    n += 1
+                    if mm.group(2) == "I":
+                        rep.ok("C28.R10", C, f"{norm_src(st.targets[0])}: transport term cross3({norm_src(om)}, {norm_src(w.args[1])}) uses an absolute angular velocity")
+                    else:
+                        rep.bad("C28.R10", C, w, f"the absolute velocity `{norm_src(st.targets[0])}` contains the transport term `{norm_src(w)}` with `{norm_src(om)}`, an angular velocity "
+                                f"relative to frame {mm.group(2)}, not to the inertial frame: the part omega_parent x {norm_src(w.args[1])} is lost and a child with a non-zero joint "
+                                "displacement does not co-rotate with its parent (velocity-level joint constraints violated)", f"{URDF}:{w.lineno}")
+
+
+def default_axis(ctx):
+    """<axis> is optional in URDF (default 1 0 0) and urdf_parser_py then hands out None: every read of `.axis` of a joint is either inside
+    a function that tests it against None, or the importer crashes on a valid robot description."""
+    rep = ctx.rep
+    mod = ctx.repo.module(URDF)
+    n = 0
+    for q, f in mod.defs().items():
+        if not isinstance(f, ast.FunctionDef) or "." in q:
+            continue
+        reads = [w for w in ast.walk(f) if isinstance(w, ast.Attribute) and w.attr == "axis" and isinstance(w.ctx, ast.Load) and isinstance(w.value, ast.Name)]
+        if not reads:
+            continue
+        n += 1
+        tested = any(isinstance(c, ast.Compare) and isinstance(c.left, ast.Attribute) and c.left.attr == "axis" and len(c.ops) == 1 and isinstance(c.ops[0], (ast.Is, ast.IsNot))
+                     and isinstance(c.comparators[0], ast.Constant) and c.comparators[0].value is None for c in ast.walk(f))
+        C = f"{URDF}:{q}"
+        if tested:
+            rep.ok("C28.R9", C, f"`{norm_src(reads[0])}` is read together with a test against None (default for a missing <axis> element)")
+        else:
+            rep.bad("C28.R9", C, reads[0], f"`{norm_src(reads[0])}` is used without a default: <axis> is optional in URDF (default 1 0 0), urdf_parser_py yields None for a joint without "
+                    "it, and the import of such a revolute / prismatic / planar joint fails (np.asanyarray(None) is a 0-d NaN)", f"{URDF}:{reads[0].lineno}")
+    if n == 0:
+        raise AnalysisError(f"{URDF}: no read of a joint's axis found")
+
+
 def axis_used(ctx):
     rep = ctx.rep
-    fn = ctx.repo.get(URDF, "joint_kinematics")
+    fn = inline_axis_helpers(ctx.repo.get(URDF, "joint_kinematics"), axis_helpers(ctx.repo.module(URDF)))
     C = f"{URDF}:joint_kinematics"
     chain = [s for s in fn.body if isinstance(s, ast.If) and "joint.type" in norm_src(s.test)]
     if len(chain) != 1:
@@ -154,6 +252,7 @@ def axis_invariance(ctx):
     fn = functions.get("joint_kinematics")
     if fn is None:
         raise AnalysisError(f"{URDF}: joint_kinematics not found")
+    fn = inline_axis_helpers(fn, axis_helpers(mod))
     C = f"{URDF}:joint_kinematics"
     chain = [s for s in fn.body if isinstance(s, ast.If) and "joint.type" in norm_src(s.test)]
     if len(chain) != 1:
@@ -199,6 +298,10 @@ def run(ctx):
     basis_typing(ctx)
     rep.rule("C28.R7", "axis-bearing joint types build the joint frame and the child's relative motion from joint.axis (taint)", 6)
     axis_used(ctx)
+    rep.rule("C28.R10", "transport terms of absolute velocities use absolute angular velocities (naming convention X_omega_YZ: Y = I)", 2)
+    transport_rule(ctx)
+    rep.rule("C28.R9", "a joint's optional <axis> element is read with URDF's default", 1)
+    default_axis(ctx)
     rep.rule("C28.R6", "relative pose and velocity of the child are invariant under scaling of the URDF axis (degree analysis)", 8)
     axis_invariance(ctx)
     model = ctx.model
@@ -397,4 +500,18 @@ NEUTRAL = [
          edits=[(URDF, "        A_JRc = axis_angle_to_A(e1, angle)\n", "        A_JRc = axis_angle_to_A(axis, angle)\n"), (URDF, "        J_omega_JRc = angle_dot * e1\n", "        J_omega_JRc = angle_dot * axis\n")]),
     dict(id="c28-n2", what="prismatic joint: unit direction through a helper-free normalisation of a copy", file=URDF,
          old="        J_r_JRc = displacement * e1\n", new="        direction = axis.copy()\n        direction /= norm(direction)\n        J_r_JRc = displacement * direction\n"),
+]
+MUTANTS += [
+    dict(id="c28-r9-1", canary=True, what="joint axis read without URDF's default (original defect F47)", file=URDF,
+         old="    axis = (1.0, 0.0, 0.0) if joint.axis is None else joint.axis\n    return np.asanyarray(axis, dtype=np.float64)\n",
+         new="    return np.asanyarray(joint.axis, dtype=np.float64)\n", expect="C28.R9"),
+]
+NEUTRAL += [
+    dict(id="c28-n-r9", what="default axis spelled with `is not None`", file=URDF,
+         old="    axis = (1.0, 0.0, 0.0) if joint.axis is None else joint.axis\n",
+         new="    axis = joint.axis if joint.axis is not None else (1.0, 0.0, 0.0)\n"),
+]
+MUTANTS += [
+    dict(id="c28-r10-seed", canary=True, what="[seeded by sub-agent] child velocity transported with the relative joint angular velocity", file=URDF,
+         old="                + A_RpJ @ (J_v_JRc + cross3(J_omega_IRc, J_r_JRc))\n", new="                + A_RpJ @ (J_v_JRc + cross3(J_omega_JRc, J_r_JRc))\n", expect="C28.R10"),
 ]
